@@ -29,7 +29,7 @@ def findall (n : XNode) (t : Str) : List XNode := n.children.filter (·.tag == t
 end XNode
 
 inductive Err where
-  | keyError | valueError | typeError | syntaxError | unmodelled
+  | keyError | valueError | typeError | syntaxError | warning | unmodelled
 deriving Repr, DecidableEq
 
 /-! ### dicts as insertion logs -/
@@ -195,18 +195,11 @@ def convInt : Option Str → Except Err Scalar
     | some i => .ok (.int i)
     | none => .error .valueError
 
-/-- `ast.literal_eval(text)` on decimal integer text: leading blanks are stripped by `literal_eval`, the
-    parser ignores trailing blanks; a non-zero literal with a leading `0` is a `SyntaxError`.
-    Anything that is not an integer literal is outside the model. -/
-def literalEvalInt (t : Str) : Except Err Scalar :=
-  let s := stripWs t
-  let digits := (match s with | '-' :: d => d | '+' :: d => d | d => d).filter (· != '_')
-  match parseIntChars s with
-  | none => .error .unmodelled
-  | some i =>
-    match digits with
-    | '0' :: _ :: _ => if i = 0 then .ok (.int i) else .error .syntaxError
-    | _ => .ok (.int i)
+/-- the `else` branch (today: `Byte`): `int(text)`; a `ValueError` is re-raised as `Warning` -/
+def convByte (t : Str) : Except Err Scalar :=
+  match parseIntChars t with
+  | some i => .ok (.int i)
+  | none => .error .warning
 
 def getAtomicAttr (e : XNode) : Except Err (Option Str × AttrVal) := do
   let name := e.get "name".toList
@@ -216,7 +209,7 @@ def getAtomicAttr (e : XNode) : Except Err (Option Str × AttrVal) := do
     if ty ∈ atomicTypes then
       if ty ∈ floatTypes then pure (raw.map fun v => match v with | some t => Scalar.float t | none => Scalar.none)
       else if ty ∈ intTypes ∨ ty ∈ uintTypes then raw.mapM convInt
-      else (raw.filterMap id).mapM literalEvalInt   -- `ast.literal_eval` (today: `Byte`); `None`s are dropped
+      else (raw.filterMap id).mapM convByte          -- today: `Byte`; `None`s are dropped
     else pure (raw.map fun v => match v with | some t => Scalar.str t | none => Scalar.none)
   pure (name, match vals with
     | [] => AttrVal.none
@@ -319,44 +312,74 @@ def parseVars (root : XNode) : Except Err (List VarRec) := do
 
 /-! ### the dataset tree (`DatasetType.createGroup/createVariable/__setitem__`) and `walk` -/
 
-inductive DNode where
-  | var (name : Str) (r : VarRec)
-  | group (name : Str) (kids : List DNode)
+/-- the children of a container in dict order: `var name rec rest` / `group name kids rest` -/
+inductive Forest where
+  | nil
+  | var (name : Str) (r : VarRec) (rest : Forest)
+  | group (name : Str) (kids : Forest) (rest : Forest)
 deriving Repr
 
-def DNode.name : DNode → Str
-  | .var n _ => n
-  | .group n _ => n
+/-- what is stored under a key: a variable or a (new, empty) group -/
+inductive Leaf where
+  | var (r : VarRec)
+  | group
+deriving Repr
+
+namespace Forest
+def names : Forest → List Str
+  | nil => []
+  | var n _ rest => n :: names rest
+  | group n _ rest => n :: names rest
+
+def hasGroup (p : Str) : Forest → Bool
+  | nil => false
+  | var _ _ rest => hasGroup p rest
+  | group n _ rest => n == p || hasGroup p rest
+
+/-- `del self[key]` -/
+def remove (nm : Str) : Forest → Forest
+  | nil => nil
+  | var n r rest => if n == nm then remove nm rest else var n r (remove nm rest)
+  | group n k rest => if n == nm then remove nm rest else group n k (remove nm rest)
+
+/-- a new key goes to the end of the dict -/
+def snoc (nm : Str) (item : Leaf) : Forest → Forest
+  | nil => match item with | .var r => var nm r nil | .group => group nm nil nil
+  | var n r rest => var n r (snoc nm item rest)
+  | group n k rest => group n k (snoc nm item rest)
+
+/-- `current = current[p]` followed by an update `f` of that container's children -/
+def mapGroup (p : Str) (f : Forest → Forest) : Forest → Forest
+  | nil => nil
+  | var n r rest => var n r (mapGroup p f rest)
+  | group n k rest => if n == p then group n (f k) (mapGroup p f rest) else group n k (mapGroup p f rest)
+
+/-- `walk(dataset, BaseType)`: depth first, children in dict order -/
+def walk : Forest → List VarRec
+  | nil => []
+  | var _ r rest => r :: walk rest
+  | group _ k rest => walk k ++ walk rest
+end Forest
 
 /-- `current[parts[-1]] = item` after walking (and, if need be, creating) the containers `parts[:-1]` -/
-def insertAt : List Str → DNode → List DNode → List DNode
-  | [], _, kids => kids
-  | [_], item, kids => kids.filter (·.name != item.name) ++ [item]
-  | p :: ps, item, kids =>
-    if kids.any (fun k => match k with | .group n _ => n == p | _ => false) then
-      kids.map fun k => match k with
-        | .group n ks => if n == p then .group n (insertAt ps item ks) else k
-        | other => other
-    else kids ++ [.group p (insertAt ps item [])]
+def insertAt : List Str → Leaf → Forest → Forest
+  | [], _, t => t
+  | [nm], item, t => (t.remove nm).snoc nm item
+  | p :: q :: ps, item, t =>
+    if t.hasGroup p then t.mapGroup p (insertAt (q :: ps) item)
+    else t.snoc p .group |>.mapGroup p (insertAt (q :: ps) item)
 
 def pathParts (fq : Str) : List Str := (splitOnChar '/' fq).filter (· ≠ [])
 
-mutual
-def walkVars : DNode → List VarRec
-  | .var _ r => [r]
-  | .group _ kids => walkVarsList kids
-def walkVarsList : List DNode → List VarRec
-  | [] => []
-  | k :: ks => walkVars k ++ walkVarsList ks
-end
+/-- the dataset after the groups (in `get_groups` order) and then the variables have been stored -/
+def buildTree (groups : List Str) (recs : List VarRec) : Forest :=
+  let t0 := groups.foldl (fun t g => insertAt (pathParts (quoteName g)) .group t) .nil
+  recs.foldl (fun t r => insertAt (pathParts (quoteName r.key)) (.var r) t) t0
 
 /-- `dmr_to_dataset`: groups first (in `get_groups` order), then the variables; result = `walk(dataset, BaseType)` -/
 def datasetWalk (root : XNode) : Except Err (List VarRec) := do
   let recs ← parseVars root
-  let groups := getGroups root ['/']
-  let t0 := groups.foldl (fun t g => insertAt (pathParts (quoteName g)) (.group ((pathParts (quoteName g)).getLast?.getD []) []) t) []
-  let t1 := recs.foldl (fun t r => insertAt (pathParts (quoteName r.key)) (.var (quoteName r.name) r) t) t0
-  pure (walkVarsList t1)
+  pure (buildTree (getGroups root ['/']) recs).walk
 
 /-! ### responses/dmr.py: the element tag written for a variable of a given numpy dtype name -/
 
